@@ -139,6 +139,15 @@ from dask_expr.io import FromPandasDivisions, FromScalars
 #
 
 
+def _skip_check_first_partition(frame):
+    # module level (not a lambda) so that ffill collections can be pickled
+    return 0
+
+
+def _skip_check_last_partition(frame):
+    return frame.npartitions - 1
+
+
 def _wrap_expr_api(*args, wrap_api=None, **kwargs):
     # Use Expr API, but convert to/from Expr objects
     assert wrap_api is not None
@@ -1863,7 +1872,7 @@ Expr={expr}"""
             return self.map_partitions(M.ffill, axis=axis, limit=limit)
         frame = self
         if limit is None:
-            frame = FillnaCheck(self, "ffill", lambda x: 0)
+            frame = FillnaCheck(self, "ffill", _skip_check_first_partition)
         return new_collection(FFill(frame, limit))
 
     @derived_from(pd.DataFrame)
@@ -1873,7 +1882,7 @@ Expr={expr}"""
             return self.map_partitions(M.bfill, axis=axis, limit=limit)
         frame = self
         if limit is None:
-            frame = FillnaCheck(self, "bfill", lambda x: x.npartitions - 1)
+            frame = FillnaCheck(self, "bfill", _skip_check_last_partition)
         return new_collection(BFill(frame, limit))
 
     @derived_from(pd.DataFrame)
